@@ -52,6 +52,7 @@ class Effect:
         self.ty, self.key, self.abbr, self.values, self.show = ty, key, abbr, list(values), show
         self.comp, self.rivals, self.slot, self.families = comp or {}, list(rivals), slot, families
         self.name = '%s/%s/%s' % (ty, key, abbr)
+        self.form = False        # True: entry of the FORMS tables below (same option on another abbreviation feature)
 
     def witness(self, v, fam, eff):
         """-> None | (present, absent)"""
@@ -276,11 +277,150 @@ CSS_EFFECTS = [
     Effect('stylesheet', 'output.format', 'zzp10+zzm5', [False, True], _css_format, families=('css',), comp=CSS_COMP),
 ]
 
+
+# ------------------------------------------------------------------ abbreviation FORMS (feature interaction)
+# The entries above show every option on ONE plain abbreviation.  A consumer of an option may sit on a path that only
+# another abbreviation feature reaches (the `!important` writer, the value list, the last property of the
+# abbreviation, a nested / repeated / attribute carrying element).  Each FORM below is one documented abbreviation
+# feature with the text the documentation states for it; the option entries are repeated on every form.
+#
+# Stylesheet (https://docs.emmet.io/css-abbreviations/: "p!+m10e!" -> "padding: !important; margin: 10em !important;",
+# "m10-20" -> "margin: 10px 20px;", "m1.5" -> "margin: 1.5em;", "c#3" -> "color: #333;"): one declaration is
+#     <property><stylesheet.between><value>[ !important]<stylesheet.after>
+# (name, suffix written after the snippet name `zzp`, value text as a function of (intUnit, floatUnit, shortHex))
+CSS_FORMS = [
+    ('important', '10!', lambda iu, fu, sh: '10' + iu + ' !important'),
+    ('two-values', '10-20', lambda iu, fu, sh: '10' + iu + ' 20' + iu),
+    ('two-values-important', '10-20!', lambda iu, fu, sh: '10' + iu + ' 20' + iu + ' !important'),
+    ('float-important', '1.5!', lambda iu, fu, sh: '1.5' + fu + ' !important'),
+    ('colour-important', '#f!', lambda iu, fu, sh: ('#fff' if sh else '#ffffff') + ' !important'),
+    ('important-only', '!', lambda iu, fu, sh: '!important'),
+]
+CSS_PLAIN_FORM = ('plain', '10', lambda iu, fu, sh: '10' + iu)
+
+
+def _form_val(form, eff, iu=None, fu=None, sh=None):
+    """Value text of the form under the effective units (None: a unit option of another type -- nothing stated)."""
+    iu = _s(eff('stylesheet.intUnit')) if iu is None else iu
+    fu = _s(eff('stylesheet.floatUnit')) if fu is None else fu
+    sh = eff('stylesheet.shortHex') if sh is None else sh
+    if iu is None or fu is None or not isinstance(sh, bool):
+        return None
+    return form[2](iu, fu, sh)
+
+
+def _fmt_on(eff):
+    return eff('output.format') is True
+
+
+def _css_form_effects():
+    out = []
+
+    def add(key, abbr, values, show, rivals=(), slot=True):
+        out.append(Effect('stylesheet', key, abbr, values, show, comp=CSS_COMP, rivals=rivals, slot=slot, families=('css',)))
+
+    def after_mid(form):       # terminator of a declaration that another one follows
+        def show(v, fam, eff):
+            val = _form_val(form, eff)
+            return None if val is None or not _fmt_on(eff) or _nl(eff) is None else val + v + _nl(eff) + 'zz-marg'
+        return show
+
+    def after_end(form):       # terminator of the LAST declaration of the abbreviation
+        def show(v, fam, eff):
+            val = _form_val(form, eff)
+            return None if val is None else val + v + END_MARK
+        return show
+
+    def between(form):
+        def show(v, fam, eff):
+            val = _form_val(form, eff)
+            return None if val is None or form[0] == 'important-only' else 'zz-prop' + v + val
+        return show
+
+    def newline(form):
+        def show(v, fam, eff):
+            val = _form_val(form, eff)
+            return None if val is None or _after(eff) is None or not _fmt_on(eff) else val + _after(eff) + v + 'zz-marg'
+        return show
+
+    def unit(form, which):
+        def show(v, fam, eff):
+            val = _form_val(form, eff, **{which: v})
+            return None if val is None or _after(eff) is None else val + (_after(eff) or END_MARK)
+        return show
+
+    for form in [CSS_PLAIN_FORM] + CSS_FORMS:
+        plain = form is CSS_PLAIN_FORM
+        a = 'zzp' + form[1]
+        add('stylesheet.after', 'zzm5+' + a, ['', 'Zq'], after_end(form), rivals=[';'])
+        if plain:
+            continue               # the other plain entries are in CSS_EFFECTS above
+        add('stylesheet.after', a + '+zzm5', ['', 'Zq'], after_mid(form), rivals=[';'])
+        if form[0] != 'important-only':
+            add('stylesheet.between', a, ['', 'Zq'], between(form), rivals=[': ', ' '])
+        add('output.newline', a + '+zzm5', ['', 'Zq', '\r\n'], newline(form), rivals=['\n'])
+        if '10' in form[1]:
+            add('stylesheet.intUnit', a, ['', 'Zq'], unit(form, 'iu'), rivals=['px'])
+        if '1.5' in form[1]:
+            add('stylesheet.floatUnit', a, ['', 'Zq'], unit(form, 'fu'), rivals=['em'])
+    return out
+
+
+# Markup (https://docs.emmet.io/abbreviations/syntax/: nesting `>`, multiplication `*`, attributes `[a=b c=d]`, `/`
+# self-closing): the same option consumers on nested, repeated and attribute carrying elements.
+def _quote(eff):
+    q = eff('output.attributeQuotes')
+    return {'single': "'", 'double': '"'}.get(q) if isinstance(q, str) else None
+
+
+def _self_closing_with_attr(v, fam, eff):
+    q = _quote(eff)
+    table = {'html': '>', 'xml': '/>', 'xhtml': ' />'}
+    if q is None or not isinstance(v, str) or v not in table:
+        return None
+    head = '<zze title=%sx%s' % (q, q)
+    return [head + table[v]], [head + w for k, w in table.items() if k != v]
+
+
+def _deep_newline(v, fam, eff):
+    i = _ind(eff)
+    if i is None:
+        return None
+    if fam != 'html':
+        return 'zze' + v + i
+    return '<zze>' + v + i + '<zzf>' + v + i + i + '<zzg></zzg>' + v + i + '</zzf>' + v + '</zze>'
+
+
+MARKUP_FORM_EFFECTS = [
+    Effect('markup', 'output.selfClosingStyle', 'zze[title=x]/', ['html', 'xml', 'xhtml'], _self_closing_with_attr),
+    Effect('markup', 'output.selfClosingStyle', 'zzf>zze/*2', ['html', 'xml', 'xhtml'],
+           _enum({'html': '<zze>', 'xml': '<zze/>', 'xhtml': '<zze />'})),
+    Effect('markup', 'output.attributeQuotes', 'zzf>zze[title=x data-a=y]', ['single', 'double'],
+           _enum({'single': "title='x' data-a='y'", 'double': 'title="x" data-a="y"'})),   # html family: pug separates by ', '
+    Effect('markup', 'output.indent', 'zze>zzf>zzg', ['', 'Zq'],
+           lambda v, fam, eff: None if _nl(eff) is None else _nl(eff) + v + v + ('<zzg>' if fam == 'html' else ''),
+           slot=True, rivals=['\t'], families=BOTH),
+    Effect('markup', 'output.indent', 'zze>zzf*2', ['', 'Zq'],
+           lambda v, fam, eff: None if _nl(eff) is None else
+           _nl(eff) + v + '<zzf></zzf>' + _nl(eff) + v + '<zzf></zzf>' + _nl(eff) + '</zze>',
+           slot=True, rivals=['\t']),
+    Effect('markup', 'output.newline', 'zze>zzf>zzg', ['', 'Zq', '\r\n'], _deep_newline, slot=True, rivals=['\n'],
+           families=BOTH),
+    Effect('markup', 'output.baseIndent', 'zze>zzf*2', ['', 'Zq'],
+           lambda v, fam, eff: None if _nl(eff) is None or _ind(eff) is None else
+           _nl(eff) + v + _ind(eff) + '<zzf></zzf>' + _nl(eff) + v + _ind(eff) + '<zzf></zzf>' + _nl(eff) + v + '</zze>',
+           slot=True),
+]
+MARKUP_EFFECTS = MARKUP_EFFECTS + MARKUP_FORM_EFFECTS
+
+END_MARK = '\0END'          # "the output ends here" inside a slot string (see judge)
+CSS_FORM_EFFECTS = _css_form_effects()
+CSS_EFFECTS = CSS_EFFECTS + CSS_FORM_EFFECTS
+for _e in MARKUP_FORM_EFFECTS + CSS_FORM_EFFECTS:
+    _e.form = True
+
 EFFECTS = {'markup': MARKUP_EFFECTS, 'stylesheet': CSS_EFFECTS}
 BY_NAME = {e.name: e for es in EFFECTS.values() for e in es}
-END_MARK = '\0END'          # "the output ends here" inside a slot string (see judge)
-
-
 def judge(effect, v, fam, eff, out):
     """-> (verdict, problems): verdict 'witness' | 'nothing-stated'; problems = list of texts."""
     w = effect.witness(v, fam, eff)
